@@ -821,6 +821,23 @@ Proof.
   cbn iota beta; repeat split; discriminate.
 Qed.
 
+(* Queries(): four result slots and ONE retry with the count the first call
+   reported.  On every sorted list the retry suffices (no error survives it),
+   the wrapper never panics and answers with all Uri-Query values in order. *)
+Theorem queries_spec l : sorted l ->
+  queries l = if ref_has URIQuery l then Ok (ENone, ref_values URIQuery l) else Ok (ENotFound, []).
+Proof.
+  intros Hs. unfold queries.
+  assert (G : forall n, get_strings l URIQuery n = multi_answer (fun v => v) URIQuery n l)
+    by (intro n; exact (get_multi_refines (fun v => v) l URIQuery n Hs)).
+  rewrite G. unfold multi_answer at 1. destruct (ref_has URIQuery l) eqn:Hh; [|reflexivity].
+  destruct (Z.ltb_spec 4 (ref_count URIQuery l)) as [Hlt|Hge].
+  - cbn [Z.eqb ETooSmall ENone Pos.eqb]. rewrite G. unfold multi_answer. rewrite Hh.
+    destruct (Z.ltb_spec (4 + (ref_count URIQuery l - 4)) (ref_count URIQuery l)); [lia|].
+    cbn [Z.eqb ENone]. rewrite map_id, take_all by (unfold ref_count; lia). reflexivity.
+  - cbn [Z.eqb ETooSmall ENone Pos.eqb]. rewrite map_id, take_all by (unfold ref_count; lia). reflexivity.
+Qed.
+
 (* ------------------------------------------------------------------ *)
 (* I. every operation refines the reference; sequences                 *)
 
